@@ -30,5 +30,12 @@ pub mod rust_util {
 pub mod policy {
     pub use crate::policy::marksweepspace::native_ms::mi_bin;
     pub use crate::policy::sft_map::{SFTMap, SFTSpaceMap};
+    /// Immix regions and states.
+    pub mod immix {
+        pub use crate::policy::immix::block::{Block, BlockState};
+        pub use crate::policy::immix::line::Line;
+        pub use crate::policy::immix::ImmixSpace;
+        pub use crate::util::linear_scan::Region;
+    }
     pub use crate::policy::marksweepspace::native_ms::verif as native_ms;
 }
